@@ -13,6 +13,10 @@
 //! removal, also when the removed object was the one written last); objects are addressed by the full encoding key,
 //! by its first nine bytes zero-padded (what index enumeration yields) or by the nine bytes with another tail.
 //!
+//! Several-handles histories: up to three live handles (Installation or DynamicContainer) on one directory; one stores,
+//! another looks at the directory again (`initialize()` / `open()` on the live handle) and then reads and stores; every
+//! handle whose view of the directory includes a write returns the object byte for byte.
+//!
 //! Re-runnable slices (for sanitizer layers): extra argv
 //!   `--only-history N`   run exactly history N of the current seed/tier
 //!   `--only-target dynamic|installation`
@@ -2023,7 +2027,321 @@ fn huge_history(ctx: &Ctx) -> Result<(), String> {
     Ok(())
 }
 
+// ---------------------------------------------------------------------------
+// Several live handles on one directory (a launcher and an updater, a game and a repair tool): one handle stores
+// objects, another one looks at the directory again (`Installation::initialize` / `DynamicContainer::open` called
+// on the live handle) and then reads and stores. "Once a write has succeeded, reading the object returns exactly
+// the bytes" holds for every handle whose view of the directory is at least as new as the write.
+// ---------------------------------------------------------------------------
+
+/// Histories with index >= this value are several-handles histories (`--only-history` / replay work as for the others).
+const HANDLES_BASE: usize = 1_000_000;
+
+enum Store {
+    Inst(Arc<Installation>),
+    Dyn(DynBundle),
+}
+
+impl Store {
+    fn open(rt: &tokio::runtime::Runtime, root: &Path, dynamic: bool) -> Result<Self, String> {
+        if dynamic {
+            Ok(Self::Dyn(open_dynamic(rt, root, 0, 4)?))
+        } else {
+            let inst = Installation::open(root.join("inst")).map_err(|e| format!("Installation::open: {e}"))?;
+            rt.block_on(inst.initialize()).map_err(|e| format!("Installation::initialize: {e}"))?;
+            Ok(Self::Inst(Arc::new(inst)))
+        }
+    }
+    /// The handle looks at the directory again.
+    fn refresh(&self, rt: &tokio::runtime::Runtime) -> Result<(), StorageError> {
+        match self {
+            Self::Inst(i) => rt.block_on(i.initialize()),
+            Self::Dyn(b) => rt.block_on(b.c.open()),
+        }
+    }
+    fn refresh_api(&self) -> &'static str {
+        match self {
+            Self::Inst(_) => "Installation::initialize",
+            Self::Dyn(_) => "DynamicContainer::open",
+        }
+    }
+    fn write(&self, rt: &tokio::runtime::Runtime, payload: &[u8], rng: &mut Rng) -> Result<(), StorageError> {
+        match self {
+            Self::Inst(i) => rt.block_on(i.write_file(payload.to_vec(), rng.bool())).map(|_| ()),
+            Self::Dyn(b) => {
+                let passed: [u8; 16] = rng.array::<16>();
+                rt.block_on(b.c.write(&passed, payload))
+            }
+        }
+    }
+    fn write_api(&self) -> &'static str {
+        match self {
+            Self::Inst(_) => "Installation::write_file",
+            Self::Dyn(_) => "DynamicContainer::write",
+        }
+    }
+    fn read(&self, rt: &tokio::runtime::Runtime, k: &[u8; 16], len: usize) -> Result<Vec<u8>, StorageError> {
+        match self {
+            Self::Inst(i) => rt.block_on(i.read_file_by_encoding_key(&EncodingKey::from_bytes(*k))),
+            Self::Dyn(b) => dyn_read(rt, &b.c, k, len, 64),
+        }
+    }
+    fn read_api(&self) -> &'static str {
+        match self {
+            Self::Inst(_) => "Installation::read_file_by_encoding_key",
+            Self::Dyn(_) => "DynamicContainer::read",
+        }
+    }
+    fn has(&self, rt: &tokio::runtime::Runtime, k: &[u8; 16]) -> bool {
+        match self {
+            Self::Inst(i) => rt.block_on(i.has_encoding_key(&EncodingKey::from_bytes(*k))),
+            Self::Dyn(b) => matches!(rt.block_on(b.c.query(k)), Ok(true)),
+        }
+    }
+}
+
+struct Handle {
+    id: usize,
+    store: Store,
+    /// number of successful writes to the directory (through any handle) this handle's view includes
+    seen: usize,
+    /// the handle has looked at the directory again at least once since it was created
+    refreshed: bool,
+}
+
+/// How the reading handle came to know the object (part of the signature).
+fn handle_view(hd: &Handle, writer: usize) -> &'static str {
+    if writer == hd.id {
+        "writer-handle"
+    } else if hd.refreshed {
+        "handle-refreshed-after-the-write"
+    } else {
+        "handle-opened-after-the-write"
+    }
+}
+
+/// A read through a handle whose view includes the write: the object, byte for byte.
+fn judge_handle_read(h: &mut Hist<'_>, hd: &Handle, k: &[u8; 16], o: &Obj, writer: usize, res: Result<Vec<u8>, StorageError>) {
+    let api = hd.store.read_api();
+    let view = handle_view(hd, writer);
+    let group = content_group(&o.payload, o.class);
+    let at = |extra: Value| json!({"ekey": hex::encode(k), "class": o.class, "written_len": o.payload.len(), "write_no": o.write_no, "written_through_handle": writer, "read_through_handle": hd.id, "more": extra});
+    match res {
+        Ok(got) if got == o.payload => {
+            h.stats.add(&format!("handles.read.ok.{view}"), 1);
+            h.stats.add(&format!("read_ok.group.{group}"), 1);
+        }
+        Ok(got) if got.len() != o.payload.len() => h.violation(
+            format!("C04|{api}|returned-length-differs|{group}|several-handles|{view}"),
+            "a read of a successfully written object returned a different number of bytes (several handles on one directory)",
+            at(json!({"returned_len": got.len(), "written": hex_short(&o.payload, 48), "returned": hex_short(&got, 48)})),
+        ),
+        Ok(got) => {
+            let first = got.iter().zip(&o.payload).position(|(a, b)| a != b);
+            h.violation(
+                format!("C04|{api}|returned-bytes-differ|{group}|several-handles|{view}"),
+                "a read of a successfully written object returned other bytes (several handles on one directory)",
+                at(json!({"first_diff": first})),
+            );
+        }
+        Err(e) => {
+            let label = err_label(&e);
+            h.stats.add(&format!("handles.read.err.{label}"), 1);
+            let sig = if err_is_content_independent(&label) { format!("C04|{api}|err={label}|several-handles|{view}") } else { format!("C04|{api}|err={label}|{group}|several-handles|{view}") };
+            h.violation(sig, "a read of a successfully written object failed through a handle whose view of the directory includes the write", at(json!({"error": e.to_string()})));
+        }
+    }
+}
+
+/// Every stored object through one handle whose view is current.
+fn handle_verify_all(h: &mut Hist<'_>, rt: &tokio::runtime::Runtime, hd: &Handle, m: &Model, meta: &BTreeMap<[u8; 16], (usize, usize)>, why: &str) {
+    h.log(format!("handle {} verify_all({why})", hd.id));
+    for (k, o) in &m.live {
+        let (_, writer) = meta.get(k).copied().unwrap_or((0, usize::MAX));
+        h.stats.add("handles.ops.read", 1);
+        if writer != hd.id {
+            h.reads_of_non_latest += 1;
+            h.stats.add("handles.reads_of_objects_written_through_another_handle", 1);
+        }
+        if !hd.store.has(rt, k) {
+            let view = handle_view(hd, writer);
+            let api = if matches!(hd.store, Store::Inst(_)) { "Installation::has_encoding_key" } else { "DynamicContainer::query" };
+            h.violation(format!("C04|{api}|false-for-written-object|several-handles|{view}"), "a written object is not reported as stored through a handle whose view includes the write", json!({"ekey": hex::encode(k), "handle": hd.id}));
+        }
+        let res = hd.store.read(rt, k, o.payload.len());
+        judge_handle_read(h, hd, k, o, writer, res);
+    }
+}
+
+fn run_handles(ctx: &Ctx, idx: usize, rng: &mut Rng) -> Result<(), String> {
+    let rt = tokio::runtime::Builder::new_current_thread().enable_all().build().map_err(|e| e.to_string())?;
+    let (td, fs_kind) = mk_tempdir(idx).map_err(|e| format!("tempdir: {e}"))?;
+    let root = td.path().to_path_buf();
+    let dynamic = idx % 2 == 1;
+    let variant = if dynamic { "DynamicContainer" } else { "Installation" };
+    let mut h = Hist { ctx, idx, target: "handles", variant, trace: Vec::new(), stats: Stats::default(), hash: 0x4a4d, epoch: 0, reads_of_non_latest: 0, fs_kind };
+    let order = *rng.pick(SIZE_ORDERS);
+    let max = match rng.below(10) {
+        0 | 1 => 65_536,
+        2..=5 => 4096,
+        _ => 1200,
+    };
+    let mut sizes = SizePlan::new(rng, order, max);
+    h.stats.add("histories.handles", 1);
+    h.stats.add(&format!("histories.handles.{variant}"), 1);
+    h.log(format!("several handles on one {variant} directory order={order} max={max}"));
+    let mut m = Model::default();
+    // per object: (number of directory writes when it was first stored, handle that stored it first)
+    let mut meta: BTreeMap<[u8; 16], (usize, usize)> = BTreeMap::new();
+    let mut dir_writes = 0usize;
+    let mut next_id = 0usize;
+    let mut handles: Vec<Handle> = Vec::new();
+    let mut writers: BTreeSet<usize> = BTreeSet::new();
+    let n_steps = rng.urange(5, 18);
+
+    // a handle looks at the directory again; afterwards every stored object reads back through it
+    let refresh = |h: &mut Hist<'_>, hd: &mut Handle, m: &Model, meta: &BTreeMap<[u8; 16], (usize, usize)>, dir_writes: usize| -> Result<(), String> {
+        let behind = dir_writes - hd.seen;
+        h.log(format!("handle {} looks at the directory again ({}; {behind} writes of other handles since its last look)", hd.id, hd.store.refresh_api()));
+        h.stats.add("handles.ops.refresh", 1);
+        if behind > 0 {
+            h.stats.add("handles.ops.refresh_after_writes_of_another_handle", 1);
+        }
+        hd.store.refresh(&rt).map_err(|e| format!("{} on a live handle: {e}", hd.store.refresh_api()))?;
+        hd.seen = dir_writes;
+        hd.refreshed = true;
+        handle_verify_all(h, &rt, hd, m, meta, "after-refresh");
+        Ok(())
+    };
+
+    for step in 0..n_steps {
+        let r = match step {
+            0 => 100, // the first handle is created
+            1 => 0,   // ... and stores
+            2 => 100, // a second handle
+            _ => rng.below(100),
+        };
+        if r < 40 && !handles.is_empty() {
+            // a handle stores objects; its view is made current first
+            let hi = rng.urange(0, handles.len() - 1);
+            if handles[hi].seen != dir_writes {
+                refresh(&mut h, &mut handles[hi], &m, &meta, dir_writes)?;
+                h.stats.add("handles.ops.write_after_refresh_after_writes_of_another_handle", 1);
+            }
+            for _ in 0..rng.urange(1, 3) {
+                let class: &'static str = if rng.chance(1, 4) { *rng.pick(EXTRA_CLASSES) } else { *rng.pick(genx::PAYLOAD_CLASSES) };
+                let n = sizes.next(rng);
+                let payload = make_payload(rng, class, n);
+                let hd = &mut handles[hi];
+                h.log(format!("handle {} write#{} class={class} len={} md5={}", hd.id, m.writes, payload.len(), hex::encode(&md5::compute(&payload).0[..4])));
+                h.stats.add("handles.ops.write", 1);
+                h.stats.add(&format!("payload_class.{class}"), 1);
+                match hd.store.write(&rt, &payload, rng) {
+                    Ok(()) => {
+                        h.stats.add("bytes_written", payload.len() as u64);
+                        let ekey = derive_ekey(&payload);
+                        dir_writes += 1;
+                        hd.seen = dir_writes;
+                        writers.insert(hd.id);
+                        if !hd.store.has(&rt, &ekey) {
+                            // same rule as everywhere: Ok, but the object is not there under its encoding key
+                            h.violation(format!("C04|{}|ok-but-object-not-indexed|several-handles", hd.store.write_api()), "a write returned Ok but the object is not stored under its encoding key", json!({"derived_ekey": hex::encode(ekey), "len": payload.len(), "class": class, "handle": hd.id}));
+                            continue;
+                        }
+                        h.stats.add("key_derivation.agrees", 1);
+                        meta.entry(ekey).or_insert((dir_writes, hd.id));
+                        m.order.retain(|k| k != &ekey);
+                        m.order.push(ekey);
+                        m.live.insert(ekey, Obj { payload, class, epoch: 0, write_no: m.writes });
+                        m.writes += 1;
+                        // read back at once through the writer
+                        let o = &m.live[&ekey];
+                        h.stats.add("handles.ops.read", 1);
+                        let res = hd.store.read(&rt, &ekey, o.payload.len());
+                        judge_handle_read(&mut h, hd, &ekey, o, meta[&ekey].1, res);
+                    }
+                    Err(e) => h.stats.add(&format!("handles.write.err.{}", err_label(&e)), 1),
+                }
+            }
+        } else if r < 60 && !handles.is_empty() {
+            let hi = rng.urange(0, handles.len() - 1);
+            refresh(&mut h, &mut handles[hi], &m, &meta, dir_writes)?;
+        } else if r < 80 && !handles.is_empty() && !m.live.is_empty() {
+            // a read through any handle; judged when the handle's view includes the write
+            let hi = rng.urange(0, handles.len() - 1);
+            let hd = &handles[hi];
+            let Some(k) = m.pick_live(rng, true) else { continue };
+            let o = &m.live[&k];
+            let (first_stored, writer) = meta[&k];
+            h.log(format!("handle {} read key={} len={} written_through={writer}", hd.id, hex::encode(&k[..4]), o.payload.len()));
+            h.stats.add("handles.ops.read", 1);
+            let res = hd.store.read(&rt, &k, o.payload.len());
+            if first_stored <= hd.seen {
+                if writer != hd.id {
+                    h.reads_of_non_latest += 1;
+                    h.stats.add("handles.reads_of_objects_written_through_another_handle", 1);
+                }
+                judge_handle_read(&mut h, hd, &k, o, writer, res);
+            } else {
+                // the object was stored after this handle last looked at the directory: whether the handle finds it
+                // is left open; data it hands back for the key must be the object
+                match res {
+                    Ok(got) if got == o.payload => h.stats.add("handles.read_with_outdated_view.ok_exact(observation)", 1),
+                    Ok(got) => h.violation(
+                        format!("C04|{}|returned-other-bytes|{}|several-handles|handle-with-outdated-view", hd.store.read_api(), content_group(&o.payload, o.class)),
+                        "a read returned data for the key of a written object that is not the object",
+                        json!({"ekey": hex::encode(k), "written_len": o.payload.len(), "returned_len": got.len(), "handle": hd.id}),
+                    ),
+                    Err(e) => h.stats.add(&format!("handles.read_with_outdated_view.err.{}(observation)", err_label(&e)), 1),
+                }
+            }
+        } else if r < 88 && handles.len() >= 2 {
+            let hi = rng.urange(0, handles.len() - 1);
+            let hd = handles.remove(hi);
+            h.log(format!("handle {} dropped", hd.id));
+            h.stats.add("handles.ops.drop_handle", 1);
+            drop(hd);
+        } else if handles.len() < 3 {
+            let store = Store::open(&rt, &root, dynamic)?;
+            let hd = Handle { id: next_id, store, seen: dir_writes, refreshed: false };
+            next_id += 1;
+            h.log(format!("handle {} created (open + initialize) while {} other handles are live", hd.id, handles.len()));
+            h.stats.add("handles.ops.new_handle", 1);
+            if !handles.is_empty() {
+                h.stats.add("handles.ops.new_handle_beside_live_handles", 1);
+            }
+            handle_verify_all(&mut h, &rt, &hd, &m, &meta, "new-handle");
+            handles.push(hd);
+        }
+    }
+    // every live handle looks again and must see everything; then a handle created after all of them are gone
+    for hd in &mut handles {
+        refresh(&mut h, hd, &m, &meta, dir_writes)?;
+    }
+    h.stats.max("handles.live_at_end.max", handles.len() as u64);
+    handles.clear();
+    let hd = Handle { id: next_id, store: Store::open(&rt, &root, dynamic)?, seen: dir_writes, refreshed: false };
+    h.log(format!("all handles dropped; handle {} created", hd.id));
+    handle_verify_all(&mut h, &rt, &hd, &m, &meta, "final-fresh-handle");
+    drop(hd);
+    if writers.len() >= 2 {
+        h.stats.add("histories.handles.with_two_writing_handles", 1);
+    }
+    finish_history(&mut h, &m, 1, 0);
+    Ok(())
+}
+
 fn run_history(ctx: &Ctx, idx: usize, only_target: Option<&str>) {
+    if idx >= HANDLES_BASE {
+        if only_target.is_some_and(|t| t != "handles") {
+            return;
+        }
+        let mut rng = ctx.rng(10_000 + idx as u64);
+        LAST_PANIC.with(|p| *p.borrow_mut() = None);
+        let res = std::panic::catch_unwind(std::panic::AssertUnwindSafe(|| run_handles(ctx, idx, &mut rng)));
+        judge_run(ctx, res, idx, "handles");
+        return;
+    }
     let mut rng = ctx.rng(10_000 + idx as u64);
     // every 8th history drives ArchiveManager + IndexManager directly (all compression settings)
     let is_arch = idx % 8 == 5;
@@ -2090,7 +2408,7 @@ fn redirect_stderr() {
 
 fn main() {
     let ctx = Ctx::init("C04", "exploration");
-    ctx.set_rule("a case is one seeded history of 5-60 operations (write of new content / of content still stored / of content removed earlier, read/query/remove through the full or the nine-byte key, remove-then-write-again, flush, drop+reopen) against DynamicContainer (plain, residency, LRU, both) or Installation in its own directory; non-trivial = at least 2 successful writes followed by at least one read of a key that is not the latest written; distinct by hash of the executed operation trace (operation, payload class, length, payload digest)");
+    ctx.set_rule("a case is one seeded history of 5-60 operations (write of new content / of content still stored / of content removed earlier, read/query/remove through the full or the nine-byte key, remove-then-write-again, flush, drop+reopen) against DynamicContainer (plain, residency, LRU, both) or Installation in its own directory; non-trivial = at least 2 successful writes followed by at least one read of a key that is not the latest written; distinct by hash of the executed operation trace (operation, payload class, length, payload digest). Several-handles histories (320 quick / 2400 thorough, half Installation, half DynamicContainer): up to three live handles on one directory, a handle stores objects while its view of the directory is current, a handle looks at the directory again (initialize() / open() on the live handle) and reads everything, handles are created beside live ones and dropped; every handle whose view includes a write must return the object byte for byte; non-trivial = at least 2 writes and a judged read of an object stored through another handle");
     ctx.assume("the harness-side encoding-key derivation MD5(\"BLTE\" || 0u32 || 'N' || payload) matches the key the storage indexes an object under (checked on every write through query/has_encoding_key; disagreement falls back to the index enumeration and is reported as key_derivation.differs)");
     ctx.assume("tempfile directories on /dev/shm (tmpfs) and on the default temp dir behave like the file systems the library targets");
     redirect_stderr();
@@ -2111,6 +2429,8 @@ fn main() {
         }
     }
     let n_hist: usize = arg_value(&args, "--histories").and_then(|s| s.parse().ok()).unwrap_or_else(|| ctx.pick(6000, 40_000));
+    // histories with several live handles on one directory (none when an explicit --histories slice is requested)
+    let n_handles: usize = if arg_value(&args, "--histories").is_some() { 0 } else { ctx.pick(320, 2400) };
     let threads: usize = arg_value(&args, "--threads").and_then(|s| s.parse().ok()).unwrap_or(16);
     let wall_cap = ctx.pick(75.0, 520.0) * Ctx::wall_scale();
 
@@ -2161,13 +2481,15 @@ fn main() {
             s.spawn(|| {
                 loop {
                     let i = next.fetch_add(1, Ordering::Relaxed);
-                    if i >= n_hist {
+                    if i >= n_hist + n_handles {
                         break;
                     }
                     if ctx.elapsed_s() > wall_cap {
                         stopped.fetch_add(1, Ordering::Relaxed);
                         break;
                     }
+                    // the several-handles histories first, then the single-handle ones
+                    let i = if i < n_handles { HANDLES_BASE + i } else { i - n_handles };
                     run_history(&ctx, i, only_target.as_deref());
                 }
             });
@@ -2224,7 +2546,18 @@ fn main() {
             "archive.verify_content.true_for_object_hash",
             "archive.ops.compact",
             "archive.ops.set_compression_mode",
+            "histories.handles.Installation",
+            "histories.handles.DynamicContainer",
+            "histories.handles.with_two_writing_handles",
+            "handles.ops.new_handle_beside_live_handles",
+            "handles.ops.refresh_after_writes_of_another_handle",
+            "handles.ops.write_after_refresh_after_writes_of_another_handle",
+            "handles.read.ok.handle-refreshed-after-the-write",
+            "handles.read.ok.handle-opened-after-the-write",
         ] {
+            if k.contains("handles") && n_handles == 0 {
+                continue;
+            }
             if ctx.get_obs(k) == 0 {
                 ctx.inconclusive(&format!("workload never exercised {k}"));
             }
